@@ -501,6 +501,49 @@ def step (line : String) : String :=
       match metaRef f c with
       | some want => answer want (impl == want)
       | none => "bad-op"
+    | ["flo", r, resp] =>
+      -- Client.ListOffsets on a given merged response: the model's init + fold; the monitor checks, per requested
+      -- partition, that the record reports only offsets / errors the response holds for that partition
+      match parseReq r with
+      | some ts =>
+        let topics : Option (List (String × List ResPart)) := (splitD resp "|").mapM fun (t : String) =>
+          match t.splitOn ":" with
+          | [n, ps] => do
+            let ps ← (splitD ps ",").mapM fun (p : String) =>
+              match p.splitOn "/" with
+              | [a, b, c, d] => do
+                let a ← a.toInt?; let b ← b.toInt?; let c ← c.toInt?; let d ← d.toInt?
+                pure (⟨a, b, c, d, -1⟩ : ResPart)
+              | _ => none
+            pure (n, ps)
+          | _ => none
+        match topics with
+        | some tps =>
+          let model := match clientApply (clientInit ts) ⟨0, tps⟩ with
+            | none => "panic"
+            | some recs => dash ("|".intercalate (strSort (recs.map fun ((t, _), r) => showRecord t r)))
+          -- reference: a partition without any response entry keeps its initial record; one with entries carries the error of
+          -- (one of) its entries or none, and its first/last are values the response holds for it (or the initial ones)
+          let flatR := tps.flatMap fun (t, ps) => ps.map fun p => (t, p)
+          let keysAsked := (ts.flatMap fun (t, ps) => ps.map fun (p, _) => (t, p)).eraseDups
+          let recs := splitD impl "|"
+          let holds := recs.length == keysAsked.length && keysAsked.all fun (t, p) =>
+            match recs.find? (·.startsWith s!"{t}/{p}:") with
+            | none => false
+            | some rec =>
+              match ((rec.drop (s!"{t}/{p}:").length).toString).splitOn "/" with
+              | [f, l, e, _] =>
+                let mine := flatR.filter fun (t', x) => t' == t && x.partition == p
+                let asked := (ts.flatMap fun (t', ps) => ps.filterMap fun (p', q) => if t' == t && p' == p then some q else none)
+                let initF : Int := if asked.contains (-2) then 0 else -1
+                let initL : Int := if asked.contains (-1) then 0 else -1
+                (e == "0" && mine.all (fun (_, x) => x.error == 0) || mine.any (fun (_, x) => toString x.error == e && x.error != 0)) &&
+                (f == toString initF || mine.any (fun (_, x) => x.timestamp == -2 && toString x.offset == f)) &&
+                (l == toString initL || mine.any (fun (_, x) => x.timestamp == -1 && toString x.offset == l))
+              | _ => false
+          answer model holds
+        | none => "bad-op"
+      | none => "bad-op"
     | ["fmeta", c] =>
       match parseCluster c with
       | some m => answer (fmetaModel m) (impl == fmetaRef m)
